@@ -44,6 +44,19 @@ def classify(o, r):
     return None
 
 
+SIG_SPELLING = "C16: comp-filter name not in upper case: comp_match and the storage pre-selection fold it differently"
+
+
+def classify_q(o, r, sp, comp):
+    """like classify, but a query whose comp-filter names are not upper case is its own class (except the known F14)"""
+    c = classify(o, r)
+    if c == SIG_F14:
+        return c
+    if sp and (sp.get(comp, comp) != comp or sp.get("VCALENDAR", "VCALENDAR") != "VCALENDAR"):
+        return SIG_SPELLING
+    return c
+
+
 def okey(o):
     return json.dumps(o, sort_keys=True)
 
@@ -191,6 +204,9 @@ def run(ctx):
     ctx.count("cases:match", len(mcases))
     ctx.count("cases:fill", len(fcases))
 
+    # ------------------------------------------------------------------ level 2 for filters: simplify_prefilters and test_filter
+    filter_level(ctx, objs)
+
     # ------------------------------------------------------------------ level 3: REPORTs over the in-process server
     report_level(ctx, objs, corpus, first_violation, leading)
     freebusy_level(ctx, objs)
@@ -200,25 +216,30 @@ VARIANTS = ["plain", "prop-true", "twice", "prop-false", "no-range", "not-define
             "no-filter", "empty-cal", "three-levels", "other-comp", "range-at-cal", "prop-at-cal"]
 
 
-def build_filters(variant, comp, r):
+def build_filters(variant, comp, r, sp=None):
+    """sp: spelling of the names of this query (x_c16.spelling); None = everything upper case"""
+    sp = sp or {}
+    g = lambda k: sp.get(k, k)
     tr = ["tr", r[0], r[1]]
-    cal = lambda ch: [["cf", "VCALENDAR", ch]]
+    comp = g(comp)
+    pf = lambda p: ["pf", p, sp]
+    cal = lambda ch: [["cf", g("VCALENDAR"), ch]]
     if variant == "plain":
         return [cal([["cf", comp, [tr]]])]
     if variant == "prop-true":
-        return [cal([["cf", comp, [tr, ["pf", 1]]]])]
+        return [cal([["cf", comp, [tr, pf(1)]]])]
     if variant == "twice":
         return [cal([["cf", comp, [tr]], ["cf", comp, [tr]]])]
     if variant == "prop-false":
-        return [cal([["cf", comp, [tr, ["pf", 0]]]])]
+        return [cal([["cf", comp, [tr, pf(0)]]])]
     if variant == "no-range":
         return [cal([["cf", comp, []]])]
     if variant == "not-defined":
         return [cal([["cf", comp, [["ind"]]]])]
     if variant == "two-filters":
-        return [cal([["cf", comp, [tr]]]), cal([["cf", comp, [["pf", 1]]]])]
+        return [cal([["cf", comp, [tr]]]), cal([["cf", comp, [pf(1)]]])]
     if variant == "range-second":
-        return [cal([["cf", comp, [["pf", 1], tr]]])]
+        return [cal([["cf", comp, [pf(1), tr]]])]
     if variant == "unknown":
         return [cal([["cf", comp, [tr, ["unk"]]]])]
     if variant == "no-filter":
@@ -226,14 +247,60 @@ def build_filters(variant, comp, r):
     if variant == "empty-cal":
         return [cal([])]
     if variant == "three-levels":
-        return [cal([["cf", comp, [tr, ["cf", "VALARM", []]]]])]
+        return [cal([["cf", comp, [tr, ["cf", g("VALARM"), []]]]])]
     if variant == "other-comp":
-        return [cal([["cf", "VFREEBUSY", [tr]]])]
+        return [cal([["cf", g("VFREEBUSY"), [tr]]])]
     if variant == "range-at-cal":
         return [cal([tr])]
     if variant == "prop-at-cal":
-        return [cal([["pf", 2], ["cf", comp, [tr]]])]
+        return [cal([pf(2), ["cf", comp, [tr]]])]
     raise AssertionError(variant)
+
+
+def filter_level(ctx, objs):
+    """simplify_prefilters(filters, "VCALENDAR") and test_filter("VCALENDAR", item, filter) called directly, names in all
+    spellings; plus the two-site agreement as a monitor: an item that test_filter accepts is never skipped by the
+    pre-selection's component test (tag == item.component_name)."""
+    rng = ctx.rng
+    n = ctx.n(160, 2500)
+    scases, tcases = [], []
+    flagged = False
+    for i in range(n):
+        o = rng.choice(objs)
+        r = X.boundary_ranges(rng, o, 1)[0]
+        sp = None if i % 3 == 0 else X.spelling(rng)
+        v = VARIANTS[i % len(VARIANTS)]
+        fs = build_filters(v, o["t"], r, sp)
+        got = X.real_simplify(fs)
+        scases.append((fs, None if isinstance(got, str) else got))
+        ctx.case(("simplify", v, X.xml_query(fs)), nontrivial=True)
+        if len(fs) == 1:
+            t = X.real_test_filter(o, fs[0])
+            tcases.append(((fs[0], o), None if isinstance(t, str) else t))
+            ctx.case(("test_filter", v, X.xml_query(fs), okey(o)), nontrivial=X.in_grammar(o))
+            if t is True and not isinstance(got, str) and got[0] is not None and got[0] != o["t"] and not flagged:
+                flagged = True
+                ctx.violation("test_filter accepts a %s for %s but simplify_prefilters selects component %r only: the object is dropped by the pre-selection" % (
+                    o["t"], X.xml_query(fs), got[0]),
+                    dict(level="function-filter", object=o, ics=X.to_ics(o), query=X.xml_query(fs), simplify=got, test_filter=t),
+                    signature="C16: pre-selection and comp_match disagree on the component name")
+    bad = ctx.diff_cases("c16_simplify", X.HEADER, "simplify_prefilters", scases, X.enc_filters,
+                         enc_opt(lambda g: "(%s, %s, %s, %s)" % ("None" if g[0] is None else "(Some %s)" % X.enc_cname(g[0]),
+                                                                 X.enc_xt(g[1]), X.enc_xt(g[2]), enc_bool(g[3]))),
+                         "(fun a b => match b with Some y => eq_simplify a y | None => false end)")
+    ok = bad is not None and not bad
+    if bad is not None:
+        ctx.obligation("correspondence:simplify_prefilters", ok, "" if ok else "model differs on %d of %d, first: %s -> %r" % (
+            len(bad), len(scases), X.xml_query(scases[bad[0]][0]), scases[bad[0]][1]))
+    bad = ctx.diff_cases("c16_testfilter", X.HEADER, "(fun x => run_test_filter (fst x) (snd x))", tcases,
+                         lambda x: "(([%s] : list elem), %s)" % (";".join(X.enc_elem(e) for e in x[0]), X.enc_obj(x[1])),
+                         enc_opt(enc_bool), "eq_opt Bool.eqb")
+    ok = bad is not None and not bad
+    if bad is not None:
+        ctx.obligation("correspondence:test_filter", ok, "" if ok else "model differs on %d of %d, first: %s on %s -> %r" % (
+            len(bad), len(tcases), X.xml_query([tcases[bad[0]][0][0]]), X.to_ics(tcases[bad[0]][0][1]).replace("\r\n", "|"), tcases[bad[0]][1]))
+    ctx.count("cases:simplify_prefilters", len(scases))
+    ctx.count("cases:test_filter", len(tcases))
 
 
 def report_level(ctx, objs, corpus, first_violation, leading):
@@ -264,17 +331,20 @@ def report_level(ctx, objs, corpus, first_violation, leading):
                 qranges.append((o, X.boundary_ranges(rng, o, 1)[0]))
             for qi, (o, r) in enumerate(qranges):
                 comp = o["t"]
+                # the spelling dimension: names in upper / lower / capitalised / mixed case, same for all variants of the query
+                sp = None if qi % 2 == 0 else X.spelling(rng)
+                ctx.count("spelling:%s" % ("upper" if sp is None else "varied"))
                 variants = ["plain", "prop-true", "twice", "prop-false"]
                 if qi % 3 == 0:
                     variants.append(VARIANTS[4 + (qi // 3 + b) % (len(VARIANTS) - 4)])
                 answers = {}
                 for v in variants:
-                    fs = build_filters(v, comp, r)
+                    fs = build_filters(v, comp, r, sp)
                     got = do_query(srv, path, fs)
                     answers[v] = got
                     rcases.append(((fs, batch), got))
                     meta.append((v, comp, r))
-                    ctx.case(("l3", v, comp, tuple(r), tuple(okey(x) for x in batch)), nontrivial=r != [None, None],
+                    ctx.case(("l3", v, comp, tuple(r), X.xml_query(fs), tuple(okey(x) for x in batch)), nontrivial=r != [None, None],
                              sample=dict(level=3, variant=v, query=X.xml_query(fs), answer=got) if len(ctx.samples) < 5 else None)
                     ctx.count("variant:%s" % v)
                 # monitor 1: adding an always-true condition never changes the result
@@ -282,14 +352,14 @@ def report_level(ctx, objs, corpus, first_violation, leading):
                     if answers[v] != answers["plain"]:
                         culprits = sorted(set(answers[v] or []) ^ set(answers["plain"] or []))
                         oo = batch[culprits[0]] if culprits else o
-                        sig = classify(oo, r) or "C16: adding an always-true condition changes the result"
+                        sig = classify_q(oo, r, sp, comp) or "C16: adding an always-true condition changes the result"
                         if ("always", sig) not in first_violation:
                             first_violation[("always", sig)] = True
                             ctx.violation("calendar-query %s %s..%s: plain filter returns %r, with an always-true condition (%s) %r" % (
                                 comp, r[0] and X.fmt_dt(r[0]), r[1] and X.fmt_dt(r[1]), answers["plain"], v, answers[v]),
                                 dict(level="http", objects=batch, ics=[X.to_ics(x, uid="uid%d" % i) for i, x in enumerate(batch)],
-                                     comp=comp, range=r, variant=v, plain=answers["plain"], with_condition=answers[v],
-                                     query_plain=X.xml_query(build_filters("plain", comp, r)), query_variant=X.xml_query(build_filters(v, comp, r))),
+                                     comp=comp, range=r, spelling=sp, variant=v, plain=answers["plain"], with_condition=answers[v],
+                                     query_plain=X.xml_query(build_filters("plain", comp, r, sp)), query_variant=X.xml_query(build_filters(v, comp, r, sp))),
                                 signature=sig)
                 # monitor 1b: a condition that nothing satisfies leaves nothing
                 if answers["prop-false"] not in ([], None) and ("never",) not in first_violation:
@@ -298,14 +368,14 @@ def report_level(ctx, objs, corpus, first_violation, leading):
                         comp, r[0] and X.fmt_dt(r[0]), r[1] and X.fmt_dt(r[1]), answers["prop-false"]),
                         dict(level="http", objects=batch, ics=[X.to_ics(x, uid="uid%d" % i) for i, x in enumerate(batch)],
                              comp=comp, range=r, variant="prop-false", plain=[], with_condition=answers["prop-false"],
-                             query_variant=X.xml_query(build_filters("prop-false", comp, r))),
+                             query_variant=X.xml_query(build_filters("prop-false", comp, r, sp))),
                         signature="C16: an unsatisfiable condition does not empty the result")
                 if answers["plain"] is None and ("fails",) not in first_violation:
                     first_violation[("fails",)] = True
                     ctx.violation("calendar-query %s %s..%s fails instead of answering" % (comp, r[0] and X.fmt_dt(r[0]), r[1] and X.fmt_dt(r[1])),
                                   dict(level="http", objects=batch, ics=[X.to_ics(x, uid="uid%d" % i) for i, x in enumerate(batch)],
                                        comp=comp, range=r, variant="plain", plain=None, with_condition=None,
-                                       query_plain=X.xml_query(build_filters("plain", comp, r))),
+                                       query_plain=X.xml_query(build_filters("plain", comp, r, sp))),
                                   signature="C16: a well-formed calendar-query fails")
                 # monitor 2: the answer is exactly the set the RFC 9.9 tables give (independent oracle)
                 if X.proper(r) and answers["plain"] is not None:
@@ -317,14 +387,14 @@ def report_level(ctx, objs, corpus, first_violation, leading):
                             continue
                         got = i in answers["plain"]
                         if got != want:
-                            sig = classify(x, r) or "C16: calendar-query differs from RFC 4791 9.9"
+                            sig = classify_q(x, r, sp, comp) or "C16: calendar-query differs from RFC 4791 9.9"
                             if ("http", sig) not in first_violation:
                                 first_violation[("http", sig)] = True
                                 ctx.violation("calendar-query %s %s..%s %s %s although RFC 4791 9.9 says %s" % (
                                     comp, r[0] and X.fmt_dt(r[0]), r[1] and X.fmt_dt(r[1]), "returns" if got else "does not return",
                                     X.to_ics(x).replace("\r\n", "|"), "no overlap" if got else "overlap"),
-                                    dict(level="http", object=x, ics=X.to_ics(x), comp=comp, range=r, returned=got, rfc=want,
-                                         query=X.xml_query(build_filters("plain", comp, r))), signature=sig)
+                                    dict(level="http", object=x, ics=X.to_ics(x), comp=comp, range=r, spelling=sp, returned=got, rfc=want,
+                                         query=X.xml_query(build_filters("plain", comp, r, sp))), signature=sig)
     bad = ctx.diff_cases("c16_l3", X.HEADER, "(fun x => run_report (fst x) (snd x))", rcases,
                          lambda x: "(%s, [%s])" % (X.enc_filters(x[0]), ";".join(X.enc_obj(o) for o in x[1])),
                          enc_opt(X.tlist(X.z, "Z")), "eq_opt (eq_list Z.eqb)", shard=60)
@@ -442,15 +512,15 @@ def replay(ctx, path):
         with impl.Server(conf=CONF) as srv:
             srv.mkcol("/u/", login="u:")
             put_objects(srv, "/u/c/", [o])
-            got = do_query(srv, "/u/c/", build_filters("plain", rp["comp"], r))
+            got = do_query(srv, "/u/c/", build_filters("plain", rp["comp"], r, rp.get("spelling")))
         print("calendar-query returns:", got, " RFC 4791 9.9 oracle:", X.rfc_overlaps(o, r))
         return 0 if (got == [0]) == bool(X.rfc_overlaps(o, r)) else 1
     if rp.get("level") == "http" and "objects" in rp:
         with impl.Server(conf=CONF) as srv:
             srv.mkcol("/u/", login="u:")
             put_objects(srv, "/u/c/", rp["objects"])
-            a = do_query(srv, "/u/c/", build_filters("plain", rp["comp"], rp["range"]))
-            b = do_query(srv, "/u/c/", build_filters(rp["variant"], rp["comp"], rp["range"]))
+            a = do_query(srv, "/u/c/", build_filters("plain", rp["comp"], rp["range"], rp.get("spelling")))
+            b = do_query(srv, "/u/c/", build_filters(rp["variant"], rp["comp"], rp["range"], rp.get("spelling")))
         print("plain:", a, " with always-true condition:", b)
         return 0 if a == b else 1
     print(json.dumps(rp, indent=1)[:3000])
